@@ -13,13 +13,7 @@ def explore(ctx):
 
 
 def replay(ctx, rec):
-    import harness, pipeline
-    asm = harness.real_asm()
-    inp = rec['input']
-    real = pipeline.run_real(asm, inp['source'], inp.get('compress', False))
-    if real['status'] != 'OK':
-        return True
-    return layout_engine.replay_C03(ctx, inp, real, rec)
+    return layout_engine.replay(ctx, 'C03', rec)
 
 
 CLAIM = {'text': "C03_labels: for the hand-written Gallina model of the 16 passes (Model/Passes.v, calling the GENERATED criteria/encoders/relocation functions) and EVERY program with unique labels and align N>=1, both modes: a successful run's label table is exact -- each label's value is the total size of the chunks emitted for the source items before it (proved by a generic layout lemma over an arbitrary size-shrinking rule, instantiated for compression, pseudo expansion, alignment; all later passes proved size-preserving). C03_branch/jal/far/cj/cb_lands: the immediate of a transfer evaluated at final offset p with final labels is q-p; pushed through the generated encoder and the Spec decoder (C01/C02 theorems) the transfer lands on q (auipc+jalr: modulo 2^32 via C07). Model tied to asm.assemble by the pipeline correspondence (per-item blobs, labels, constants, errors on generated layouts incl. every branch/jump range edge and 1 MiB gaps); falsifier decodes every transfer of the REAL output with the extracted Spec and recomputes label offsets from the blobs.", 'note': 'Trusted: Coq kernel + vm_compute; py2coq; hand model of the pass loops (tied by differential correspondence only); Spec decoders; parser/lexer are outside this theorem (items come from the real front end; C13). Zero axioms.', 'technique': 'Coq proof (induction over item lists, generic shrinking-pass invariant) over hand model + generated tables; differential correspondence with the real assembler; Spec-decoding falsifier', 'design': '6/C03'}
